@@ -298,7 +298,7 @@ function genTrace(spec, seed, bridge, run) {
 // ---- executor ------------------------------------------------------------------------------------------
 let tagCounter = 0;
 function freshTag() { tagCounter++; return "Tg" + String(tagCounter).padStart(6, "0"); }
-function sliceValue(tag, enc) { return enc === "u8s" ? Array.from(Buffer.from(tag, "utf8")) : tag; }
+function sliceValue(tag, enc) { return enc === "u8s" || enc === "u8smut" ? Array.from(Buffer.from(tag, "utf8")) : tag; }
 
 function required(ent, acc = new Set()) {
   for (const set of [...ent.slots, ent.storage]) for (const e of set) if (!acc.has(e)) { acc.add(e); if (e.kind === "obj") required(e, acc); }
